@@ -11,6 +11,7 @@ import (
 	"encoding/pem"
 	"fmt"
 	"math/big"
+	"math/rand/v2"
 	"os"
 	"path/filepath"
 	"sort"
@@ -55,7 +56,46 @@ type hist struct {
 	a     *authority.Assembly
 	ep    epoch
 	cmds  []string
+
+	r      *rand.Rand
+	tag    string // evidence tag of the history's family ("cli=false", "cli=true" for the original histories)
+	viaCLI bool
+	longCA bool
+	llKM   bool
+	llLoad int
+	zone   *time.Location
+	now    time.Time
+	// serials of the certificates created so far, by subject common name (certificate object names are CN-serial)
+	usedSerials   map[string][]*big.Int
+	rootNotAfter  time.Time
+	rootNotBefore time.Time
+	ncmd          int
+
+	// the three stages of one step; the original histories use the legacy implementations
+	pickTime func(step int)
+	gen      func(step int, pre *authority.State) *command
+	exec     func(cm *command) error
+	x        *extra // state of the added families (nil for the original histories)
 }
+
+// command is one generated command, complete before the repository is called.
+type command struct {
+	op                   int // opBootstrap | opRotate | opWipeout
+	kind                 string
+	overwrite, keepGoing bool
+	bc                   *rotate.BootstrapContext
+	skc                  *rotate.SigningKeyContext
+	want                 *big.Int // rotate: the serial the new certificate must carry (nil = not judged)
+	wca, wkeys           bool
+	args                 []string // command-line form
+	note                 string   // what the added families chose (evidence only)
+}
+
+const (
+	opBootstrap = iota
+	opRotate
+	opWipeout
+)
 
 func (h *hist) viol(rule, format string, a ...any) {
 	h.c.Violate(core.Violation{Kind: "oracle", Entry: "bootstrap/rotate/wipeout", Site: rule, Gen: h.gname, Case: h.idx, Detail: fmt.Sprintf(format, a...),
@@ -152,10 +192,361 @@ func (h *hist) checkSigning(cert, root *x509.Certificate, now time.Time, wantSer
 	}
 }
 
+var t0 = time.Date(2025, 1, 1, 0, 0, 0, 0, time.UTC)
+
+var zoneNames = []string{"UTC", "America/New_York", "Europe/Berlin", "Australia/Lord_Howe", "Asia/Kolkata"}
+
+// drawZone: the operator's clock may be in any zone; lifetimes are absolute durations whatever the zone.
+func drawZone(r *rand.Rand) *time.Location {
+	zone, zerr := time.LoadLocation(zoneNames[r.IntN(5)])
+	if zerr != nil {
+		zone = time.UTC
+	}
+	return zone
+}
+
+// legacyTime advances the history's clock: days to years forward, biased to daylight-saving switches, always
+// inside the root's validity.
+func (h *hist) legacyTime(step int) {
+	r, now := h.r, h.now
+	now = now.Add(time.Duration(1+r.IntN(400)) * day).Add(time.Duration(r.IntN(86400)) * time.Second).In(h.zone)
+	if r.IntN(3) == 0 {
+		// land near the zone's next daylight-saving switch (calendar arithmetic and absolute durations differ there)
+		for d := 0; d < 400; d++ {
+			t := now.Add(time.Duration(d) * day)
+			_, o1 := t.Zone()
+			_, o2 := t.Add(day).Zone()
+			if o1 != o2 {
+				now = t.Add(time.Duration(r.IntN(5)-2) * day).Add(time.Duration(r.IntN(7200)) * time.Second)
+				break
+			}
+		}
+	}
+	if r.IntN(8) == 0 {
+		now = now.Add(time.Duration(5*365+r.IntN(15*365)) * day) // years later: still inside a 25-year root
+	}
+	if !h.rootNotAfter.IsZero() && !now.Before(h.rootNotAfter.Add(-2*day)) {
+		now = h.rootNotAfter.Add(-time.Duration(2+r.IntN(1500)) * day).In(h.zone) // timestamps stay inside the root's validity
+	}
+	h.now = now
+}
+
+func boolFlags(overwrite, keepGoing bool) []string {
+	var fl []string
+	if overwrite {
+		fl = append(fl, "--overwrite")
+	}
+	if keepGoing {
+		fl = append(fl, "--keep_going")
+	}
+	return fl
+}
+
+// legacyGen draws one command of an original history.
+func (h *hist) legacyGen(step int, pre *authority.State) *command {
+	r, c, viaCLI, longCA, now := h.r, h.c, h.viaCLI, h.longCA, h.now
+	// the documented form of a serial flag is a decimal number; operators pad them ("007"), which is still decimal
+	dec := func(n *big.Int) string {
+		s := n.String()
+		if viaCLI && r.IntN(2) == 0 {
+			s = strings.Repeat("0", 1+r.IntN(3)) + s
+			c.Count("zero-padded-decimal-serial-flags", 1)
+		}
+		return s
+	}
+	overwrite := r.IntN(3) == 0
+	// keep-going turns refusals to replace an object into silent skips: without overwrite a command over existing
+	// objects may legitimately certify nothing and still succeed. The creation clauses are therefore applied
+	// to certificates that were actually created by the command (the stored bytes changed).
+	keepGoing := r.IntN(4) == 0
+	x := r.IntN(10)
+	if longCA && h.ep.active && step%3 == 1 {
+		// the value that served the first epoch now re-bootstraps over it (new serials, new root), and goes on rotating
+		x, overwrite, keepGoing = 0, true, false
+	} else if longCA && h.ep.active && step%3 == 2 {
+		x = 6 // rotate
+	}
+	cm := &command{}
+	switch {
+	case x < 2 || (!h.ep.active && x < 6):
+		cm.op, cm.kind = opBootstrap, "bootstrap"
+		bc := &rotate.BootstrapContext{RootKeyCommonName: "rootCn", SigningKeyCommonName: "signingKeyCn", RootKeySerial: big.NewInt(1), SigningKeySerial: big.NewInt(2), Now: now}
+		if r.IntN(3) == 0 || (longCA && h.ep.active) || (viaCLI && r.IntN(2) == 0) {
+			bc.RootKeySerial, bc.SigningKeySerial = big.NewInt(int64(1+r.IntN(500))), big.NewInt(int64(1000+r.IntN(500)))
+			cm.kind = "bootstrap(serials)"
+			if r.IntN(3) == 0 { // serial numbers are arbitrary-precision: beyond 64 bits
+				bc.SigningKeySerial = new(big.Int).Add(new(big.Int).Lsh(big.NewInt(int64(1+r.IntN(1000))), uint(63+r.IntN(40))), big.NewInt(int64(r.IntN(1000))))
+			}
+		}
+		if r.IntN(4) == 0 {
+			bc.SigningKeyCommonName = fmt.Sprintf("signer-%d", step)
+		}
+		cm.bc = bc
+		if viaCLI {
+			cm.args = append([]string{"bootstrap", "--timestamp", now.Format(time.RFC3339), "--root_key_cn", bc.RootKeyCommonName, "--signing_key_cn", bc.SigningKeyCommonName,
+				"--root_key_serial", dec(bc.RootKeySerial), "--initial_signing_key_serial", dec(bc.SigningKeySerial)}, boolFlags(overwrite, keepGoing)...)
+		}
+	case x < 8:
+		cm.op, cm.kind = opRotate, "rotate"
+		skc := &rotate.SigningKeyContext{SigningKeyCommonName: "signingKeyCn", Now: now}
+		if h.ep.active && pre.PrimaryCert != nil {
+			// "one greater than its predecessor's": the predecessor is the certificate of the primary before the command
+			if ps, ok := new(big.Int).SetString(pre.PrimaryCert.Subject.SerialNumber, 10); ok {
+				cm.want = new(big.Int).Add(ps, big.NewInt(1))
+			}
+		}
+		xs := r.IntN(12)
+		if viaCLI && r.IntN(3) == 0 {
+			xs = 0 // the command line is where serial overrides are typed
+		}
+		used := h.usedSerials["signingKeyCn"]
+		switch x := xs; {
+		case x < 2:
+			skc.SigningKeySerial = big.NewInt(int64(5000 + 100*step + r.IntN(50)))
+			cm.kind = "rotate(serial-override)"
+		case x == 2: // beyond 64 bits
+			skc.SigningKeySerial = new(big.Int).Add(new(big.Int).Lsh(big.NewInt(int64(1+r.IntN(1000))), uint(63+r.IntN(40))), big.NewInt(int64(r.IntN(1000))))
+			cm.kind = "rotate(serial-override>64bit)"
+		case x == 3 && len(used) > 0: // a serial (hence a certificate object name) that is already taken in this authority
+			skc.SigningKeySerial = new(big.Int).Set(used[r.IntN(len(used))])
+			cm.kind = "rotate(serial-override=existing)"
+		}
+		if skc.SigningKeySerial != nil {
+			cm.want = skc.SigningKeySerial
+		}
+		if cm.kind != "rotate(serial-override=existing)" && r.IntN(4) == 0 {
+			skc.SigningKeyCommonName = fmt.Sprintf("signer-%d", step)
+		}
+		cm.skc = skc
+		if viaCLI {
+			args := []string{"rotate", "--timestamp", now.Format(time.RFC3339), "--signing_key_cn", skc.SigningKeyCommonName}
+			if skc.SigningKeySerial != nil {
+				args = append(args, "--rotated_key_serial_override", dec(skc.SigningKeySerial))
+			}
+			cm.args = append(args, boolFlags(overwrite, keepGoing)...)
+		}
+	default:
+		cm.op, cm.wca, cm.wkeys, cm.kind = opWipeout, true, true, "wipeout"
+		switch r.IntN(3) {
+		case 0:
+			cm.wkeys, cm.kind = false, "wipeout ca"
+		case 1:
+			cm.wca, cm.kind = false, "wipeout keys"
+		}
+		if viaCLI {
+			args := []string{"wipeout"}
+			if !cm.wkeys {
+				args = append(args, "ca")
+			} else if !cm.wca {
+				args = append(args, "keys")
+			}
+			cm.args = append(args, boolFlags(overwrite, keepGoing)...)
+		}
+	}
+	cm.overwrite, cm.keepGoing = overwrite, keepGoing
+	return cm
+}
+
+// legacyExec runs the command through the library entry points (fresh components per command, like a new
+// process) or through cmd.MakeApp.
+func (h *hist) legacyExec(cm *command) (err error) {
+	a, f := h.a, &doubles.FCtl{}
+	opts := authority.Opts{Overwrite: cm.overwrite, KeepGoing: cm.keepGoing}
+	if cm.op == opWipeout && h.llKM {
+		a.LongLivedKM = true // this command is run by the long-lived manager value
+		defer func() {
+			a.LongLivedKM = false
+			h.c.Count("wipeouts-run-by-a-long-lived-key-manager-value", 1)
+		}()
+	}
+	if h.viaCLI {
+		return a.CLI(cm.args...)
+	}
+	switch cm.op {
+	case opBootstrap:
+		return a.Bootstrap(f, opts, cm.bc)
+	case opRotate:
+		_, err = a.Rotate(f, opts, cm.skc)
+		return err
+	}
+	return a.Wipeout(f, opts, cm.wca, cm.wkeys)
+}
+
+func (h *hist) noteSerial(cert *x509.Certificate) {
+	if cert == nil {
+		return
+	}
+	if ser, ok := new(big.Int).SetString(cert.Subject.SerialNumber, 10); ok {
+		h.ep.lastSerial = ser
+		h.usedSerials[cert.Subject.CommonName] = append(h.usedSerials[cert.Subject.CommonName], ser)
+	}
+}
+
+// step runs one command of the history and evaluates the invariants after it.
+func (h *hist) step(step int) {
+	c, a := h.c, h.a
+	h.pickTime(step)
+	now := h.now
+	pre := a.Observe()
+	if h.llKM && step == h.llLoad {
+		a.LongLivedKM = true
+		a.Context(&doubles.FCtl{}, authority.Opts{}) // the long-lived process starts now and loads the key directory
+		a.LongLivedKM = false
+	}
+	cm := h.gen(step, pre)
+	kind, overwrite, keepGoing := cm.kind, cm.overwrite, cm.keepGoing
+	before := certObjects(a)
+	existed := map[string]bool{}
+	for _, b := range before {
+		if blk, _ := pem.Decode(b); blk != nil {
+			existed[string(blk.Bytes)] = true
+		} else {
+			existed[string(b)] = true
+		}
+	}
+	var known []string
+	if cm.op == opWipeout {
+		for n := range h.ep.names {
+			known = append(known, n)
+		}
+		if pst := a.Observe(); pst.Err == "" {
+			known = append(known, pst.Root, pst.Primary)
+		}
+	}
+	err := h.exec(cm)
+	c.Eval(1)
+	what := fmt.Sprintf("after %s at step %d", kind, step)
+	switch {
+	case err != nil:
+	case cm.op == opBootstrap:
+		bc := cm.bc
+		st := a.Observe()
+		h.ep = epoch{active: true, names: map[string]bool{st.Root: true, st.Primary: true}, lastSerial: bc.SigningKeySerial, n: 0}
+		// created by this command = not among the certificates stored before it
+		rootCreated := st.RootCert != nil && !existed[string(st.RootCert.Raw)]
+		signCreated := st.PrimaryCert != nil && !existed[string(st.PrimaryCert.Raw)]
+		if rootCreated {
+			h.checkRoot(st.RootCert, now, what)
+		}
+		if signCreated {
+			h.checkSigning(st.PrimaryCert, st.RootCert, now, bc.SigningKeySerial, what)
+		}
+		if (!rootCreated || !signCreated) && !keepGoing {
+			h.viol("bootstrap-succeeded-without-certifying", "%s: root created=%v signing certificate created=%v although keep-going was not given", what, rootCreated, signCreated)
+		}
+		if !rootCreated || !signCreated {
+			c.Count("commands-that-certified-nothing-under-keep-going", 1)
+		}
+		h.noteSerial(st.PrimaryCert)
+		if st.RootCert != nil {
+			h.rootNotAfter, h.rootNotBefore = st.RootCert.NotAfter, st.RootCert.NotBefore
+		}
+		if h.x != nil {
+			h.x.afterCertifying(h, cm, st, existed, what)
+		}
+	case cm.op == opRotate:
+		st := a.Observe()
+		if h.ep.active {
+			if h.ep.names[st.Primary] {
+				h.viol("key-version-name-reused", "%s: rotation named the new key %q which was already used in this epoch", what, st.Primary)
+			}
+			if st.Primary == pre.Primary {
+				h.viol("rotation-did-not-change-primary", "%s: primary still %q", what, st.Primary)
+			}
+			h.ep.names[st.Primary] = true
+			if st.PrimaryCert != nil && existed[string(st.PrimaryCert.Raw)] {
+				h.viol("rotation-succeeded-without-certifying", "%s: the new primary %q carries a certificate that was stored before the rotation", what, st.Primary)
+			}
+			h.checkSigning(st.PrimaryCert, st.RootCert, now, cm.want, what)
+			h.noteSerial(st.PrimaryCert)
+		} else {
+			// rotation on an authority that is not in a known epoch (after a partial wipeout): profile only
+			h.checkSigning(st.PrimaryCert, st.RootCert, now, nil, what)
+		}
+		if h.x != nil {
+			h.x.afterCertifying(h, cm, st, existed, what)
+		}
+	default:
+		st := a.Observe()
+		for _, n := range known {
+			if n == "" {
+				continue
+			}
+			if cm.wkeys && canSign(st, n) {
+				h.viol("key-usable-after-wipeout", "%s: key %q can still sign", what, n)
+			}
+			if cm.wca {
+				if _, cerr := st.CA.Certificate(context.Background(), n); cerr == nil {
+					h.viol("certificate-resolves-after-wipeout", "%s: certificate of %q still resolves", what, n)
+				}
+			}
+		}
+		if cm.wca && (st.Primary != "" || st.Root != "") {
+			h.viol("authority-still-names-keys-after-wipeout", "%s: root=%q primary=%q", what, st.Root, st.Primary)
+		}
+		if cm.wca && len(certObjects(a)) != 0 {
+			h.viol("certificate-objects-left-after-wipeout", "%s: %d objects", what, len(certObjects(a)))
+		}
+		if h.x != nil {
+			h.x.afterWipeout(h, cm, known, what)
+		}
+		h.ep = epoch{}
+	}
+	h.ncmd++
+	outcome := "ok"
+	if err != nil {
+		outcome = "refused"
+		a.DropLongLived() // a careful service discards its authority value after a failed command (C10 owns the other kind)
+	}
+	if h.longCA {
+		c.Count("commands-run-by-a-long-lived-authority-value", 1)
+	}
+	h.cmds = append(h.cmds, fmt.Sprintf("%s overwrite=%v keep_going=%v now=%s -> %v", kind, overwrite, keepGoing, now.Format("2006-01-02"), err)+cm.note)
+	// every command: certificates present before and not allowed to be overwritten are unchanged
+	if !overwrite && cm.op != opWipeout {
+		after := certObjects(a)
+		for n, b := range before {
+			if nb, ok := after[n]; !ok || !bytes.Equal(nb, b) {
+				h.viol("certificate-object-changed-without-overwrite", "after %s at step %d: object %s %s", kind, step, n, map[bool]string{true: "changed", false: "disappeared"}[ok])
+			}
+		}
+		h.c.Count("certificate-objects-compared-for-no-clobber", len(before))
+	}
+	// every command inside an epoch: only the primary and the root can sign
+	if h.ep.active {
+		st := a.Observe()
+		var names []string
+		for n := range h.ep.names {
+			names = append(names, n)
+		}
+		sort.Strings(names)
+		for _, n := range names {
+			if n != st.Primary && n != st.Root && canSign(st, n) {
+				h.viol("non-primary-key-can-sign", "after %s at step %d: key %q (not the primary %q) can still sign", kind, step, n, st.Primary)
+			}
+		}
+		if st.Primary != "" && err == nil && !canSign(st, st.Primary) {
+			h.viol("primary-cannot-sign", "after %s at step %d: primary %q cannot sign", kind, step, st.Primary)
+		}
+		if h.x != nil {
+			h.x.afterEvery(h, cm, st, names, err, what)
+		}
+		h.ep.n++
+	}
+	if h.x == nil {
+		c.Cell("%s|%s|%s|overwrite=%v|%s|epoch-pos=%d", a.Name(), h.tag, kind, overwrite, outcome, min(h.ep.n, 5))
+	} else {
+		c.Cell("%s|%s|%s|overwrite=%v keep_going=%v|%s|epoch-pos=%d", a.Name(), h.tag, kind, overwrite, keepGoing, outcome, min(h.ep.n, 3))
+		h.x.evidence(h, cm, before, err)
+	}
+	if h.viaCLI {
+		c.Count("commands-run-through-the-command-line", 1)
+	}
+}
+
 func run(c *core.Ctx) {
 	pairs := authority.Pairs()
 	nh := c.N(48, 240)
-	t0 := time.Date(2025, 1, 1, 0, 0, 0, 0, time.UTC)
 	cmdCount := 0
 	for hi := 0; hi < nh; hi++ {
 		if !c.Mine(hi) {
@@ -171,326 +562,30 @@ func run(c *core.Ctx) {
 		// a service that keeps ONE certificate-authority value across its commands (storage-backed authorities, library path)
 		longCA := a.CA != authority.MemCA && !viaCLI && (hi/len(pairs))%4 == 2
 		a.LongLived = longCA
-		h := &hist{c: c, idx: hi, gname: fmt.Sprintf("history#%d %s cli=%v long-lived-ca=%v", hi, a.Name(), viaCLI, longCA), a: a}
-		// the documented form of a serial flag is a decimal number; operators pad them ("007"), which is still decimal
-		dec := func(n *big.Int) string {
-			s := n.String()
-			if viaCLI && r.IntN(2) == 0 {
-				s = strings.Repeat("0", 1+r.IntN(3)) + s
-				c.Count("zero-padded-decimal-serial-flags", 1)
-			}
-			return s
-		}
-		flags := func(o authority.Opts) []string {
-			var fl []string
-			if o.Overwrite {
-				fl = append(fl, "--overwrite")
-			}
-			if o.KeepGoing {
-				fl = append(fl, "--keep_going")
-			}
-			return fl
-		}
+		h := &hist{c: c, idx: hi, gname: fmt.Sprintf("history#%d %s cli=%v long-lived-ca=%v", hi, a.Name(), viaCLI, longCA), a: a,
+			r: r, tag: fmt.Sprintf("cli=%v", viaCLI), viaCLI: viaCLI, longCA: longCA, now: t0, usedSerials: map[string][]*big.Int{}}
+		h.pickTime, h.gen, h.exec = h.legacyTime, h.legacyGen, h.legacyExec
 		c.Begin(hi, h.gname, "bootstrap/rotate/wipeout", nil)
-		now := t0
-		// the operator's clock may be in any zone; lifetimes are absolute durations whatever the zone
-		zoneName := []string{"UTC", "America/New_York", "Europe/Berlin", "Australia/Lord_Howe", "Asia/Kolkata"}[r.IntN(5)]
-		zone, zerr := time.LoadLocation(zoneName)
-		if zerr != nil {
-			zone = time.UTC
-		}
-		var usedSerials []*big.Int
-		var rootNotAfter time.Time
+		h.zone = drawZone(r)
 		// a localkm manager value that outlives commands run by other processes on the same key directory: it is loaded
 		// at some point of the history and later used for wipeout commands only
-		llKM := a.KM == authority.LocalKM && !viaCLI && (hi/len(pairs))%3 == 2
-		llLoadAt := r.IntN(4)
+		h.llKM = a.KM == authority.LocalKM && !viaCLI && (hi/len(pairs))%3 == 2
+		h.llLoad = r.IntN(4)
 		ncmd := c.N(8, 12)
-		var cmds []string
 		for step := 0; step < ncmd; step++ {
-			now = now.Add(time.Duration(1+r.IntN(400)) * day).Add(time.Duration(r.IntN(86400)) * time.Second).In(zone)
-			if r.IntN(3) == 0 {
-				// land near the zone's next daylight-saving switch (calendar arithmetic and absolute durations differ there)
-				for d := 0; d < 400; d++ {
-					t := now.Add(time.Duration(d) * day)
-					_, o1 := t.Zone()
-					_, o2 := t.Add(day).Zone()
-					if o1 != o2 {
-						now = t.Add(time.Duration(r.IntN(5)-2) * day).Add(time.Duration(r.IntN(7200)) * time.Second)
-						break
-					}
-				}
-			}
-			if r.IntN(8) == 0 {
-				now = now.Add(time.Duration(5*365+r.IntN(15*365)) * day) // years later: still inside a 25-year root
-			}
-			if !rootNotAfter.IsZero() && !now.Before(rootNotAfter.Add(-2*day)) {
-				now = rootNotAfter.Add(-time.Duration(2+r.IntN(1500)) * day).In(zone) // timestamps stay inside the root's validity
-			}
-			pre := a.Observe()
-			if llKM && step == llLoadAt {
-				a.LongLivedKM = true
-				a.Context(&doubles.FCtl{}, authority.Opts{}) // the long-lived process starts now and loads the key directory
-				a.LongLivedKM = false
-			}
-			overwrite := r.IntN(3) == 0
-			// keep-going turns refusals to replace an object into silent skips: without overwrite a command over existing
-			// objects may legitimately certify nothing and still succeed. The creation clauses below are therefore applied
-			// to certificates that were actually created by the command (the stored bytes changed).
-			keepGoing := r.IntN(4) == 0
-			opts := authority.Opts{Overwrite: overwrite, KeepGoing: keepGoing}
-			before := certObjects(a)
-			existed := map[string]bool{}
-			for _, b := range before {
-				if blk, _ := pem.Decode(b); blk != nil {
-					existed[string(blk.Bytes)] = true
-				} else {
-					existed[string(b)] = true
-				}
-			}
-			x := r.IntN(10)
-			if longCA && h.ep.active && step%3 == 1 {
-				// the value that served the first epoch now re-bootstraps over it (new serials, new root), and goes on rotating
-				x, overwrite, keepGoing = 0, true, false
-				opts = authority.Opts{Overwrite: true}
-			} else if longCA && h.ep.active && step%3 == 2 {
-				x = 6 // rotate
-			}
-			var kind string
-			var err error
-			f := &doubles.FCtl{}
-			switch {
-			case x < 2 || (!h.ep.active && x < 6):
-				kind = "bootstrap"
-				bc := &rotate.BootstrapContext{RootKeyCommonName: "rootCn", SigningKeyCommonName: "signingKeyCn", RootKeySerial: big.NewInt(1), SigningKeySerial: big.NewInt(2), Now: now}
-				if r.IntN(3) == 0 || (longCA && h.ep.active) || (viaCLI && r.IntN(2) == 0) {
-					bc.RootKeySerial, bc.SigningKeySerial = big.NewInt(int64(1+r.IntN(500))), big.NewInt(int64(1000+r.IntN(500)))
-					kind = "bootstrap(serials)"
-					if r.IntN(3) == 0 { // serial numbers are arbitrary-precision: beyond 64 bits
-						bc.SigningKeySerial = new(big.Int).Add(new(big.Int).Lsh(big.NewInt(int64(1+r.IntN(1000))), uint(63+r.IntN(40))), big.NewInt(int64(r.IntN(1000))))
-					}
-				}
-				if r.IntN(4) == 0 {
-					bc.SigningKeyCommonName = fmt.Sprintf("signer-%d", step)
-				}
-				if viaCLI {
-					err = a.CLI(append([]string{"bootstrap", "--timestamp", now.Format(time.RFC3339), "--root_key_cn", bc.RootKeyCommonName, "--signing_key_cn", bc.SigningKeyCommonName,
-						"--root_key_serial", dec(bc.RootKeySerial), "--initial_signing_key_serial", dec(bc.SigningKeySerial)}, flags(opts)...)...)
-				} else {
-					err = a.Bootstrap(f, opts, bc)
-				}
-				c.Eval(1)
-				if err == nil {
-					st := a.Observe()
-					h.ep = epoch{active: true, names: map[string]bool{st.Root: true, st.Primary: true}, lastSerial: bc.SigningKeySerial, n: 0}
-					what := fmt.Sprintf("after %s at step %d", kind, step)
-					// created by this command = not among the certificates stored before it
-					rootCreated := st.RootCert != nil && !existed[string(st.RootCert.Raw)]
-					signCreated := st.PrimaryCert != nil && !existed[string(st.PrimaryCert.Raw)]
-					if rootCreated {
-						h.checkRoot(st.RootCert, now, what)
-					}
-					if signCreated {
-						h.checkSigning(st.PrimaryCert, st.RootCert, now, bc.SigningKeySerial, what)
-					}
-					if (!rootCreated || !signCreated) && !keepGoing {
-						h.viol("bootstrap-succeeded-without-certifying", "%s: root created=%v signing certificate created=%v although keep-going was not given", what, rootCreated, signCreated)
-					}
-					if !rootCreated || !signCreated {
-						c.Count("commands-that-certified-nothing-under-keep-going", 1)
-					}
-					if st.PrimaryCert != nil {
-						if ser, ok := new(big.Int).SetString(st.PrimaryCert.Subject.SerialNumber, 10); ok {
-							h.ep.lastSerial = ser
-							if st.PrimaryCert.Subject.CommonName == "signingKeyCn" {
-								usedSerials = append(usedSerials, ser)
-							}
-						}
-					}
-					if st.RootCert != nil {
-						rootNotAfter = st.RootCert.NotAfter
-					}
-				}
-			case x < 8:
-				kind = "rotate"
-				skc := &rotate.SigningKeyContext{SigningKeyCommonName: "signingKeyCn", Now: now}
-				var want *big.Int
-				if h.ep.active && pre.PrimaryCert != nil {
-					// "one greater than its predecessor's": the predecessor is the certificate of the primary before the command
-					if ps, ok := new(big.Int).SetString(pre.PrimaryCert.Subject.SerialNumber, 10); ok {
-						want = new(big.Int).Add(ps, big.NewInt(1))
-					}
-				}
-				xs := r.IntN(12)
-				if viaCLI && r.IntN(3) == 0 {
-					xs = 0 // the command line is where serial overrides are typed
-				}
-				switch x := xs; {
-				case x < 2:
-					skc.SigningKeySerial = big.NewInt(int64(5000 + 100*step + r.IntN(50)))
-					kind = "rotate(serial-override)"
-				case x == 2: // beyond 64 bits
-					skc.SigningKeySerial = new(big.Int).Add(new(big.Int).Lsh(big.NewInt(int64(1+r.IntN(1000))), uint(63+r.IntN(40))), big.NewInt(int64(r.IntN(1000))))
-					kind = "rotate(serial-override>64bit)"
-				case x == 3 && len(usedSerials) > 0: // a serial (hence a certificate object name) that is already taken in this authority
-					skc.SigningKeySerial = new(big.Int).Set(usedSerials[r.IntN(len(usedSerials))])
-					kind = "rotate(serial-override=existing)"
-				}
-				if skc.SigningKeySerial != nil {
-					want = skc.SigningKeySerial
-				}
-				if kind != "rotate(serial-override=existing)" && r.IntN(4) == 0 {
-					skc.SigningKeyCommonName = fmt.Sprintf("signer-%d", step)
-				}
-				prev := pre
-				if viaCLI {
-					args := []string{"rotate", "--timestamp", now.Format(time.RFC3339), "--signing_key_cn", skc.SigningKeyCommonName}
-					if skc.SigningKeySerial != nil {
-						args = append(args, "--rotated_key_serial_override", dec(skc.SigningKeySerial))
-					}
-					err = a.CLI(append(args, flags(opts)...)...)
-				} else {
-					_, err = a.Rotate(f, opts, skc)
-				}
-				c.Eval(1)
-				if err == nil {
-					st := a.Observe()
-					what := fmt.Sprintf("after %s at step %d", kind, step)
-					if h.ep.active {
-						if h.ep.names[st.Primary] {
-							h.viol("key-version-name-reused", "%s: rotation named the new key %q which was already used in this epoch", what, st.Primary)
-						}
-						if st.Primary == prev.Primary {
-							h.viol("rotation-did-not-change-primary", "%s: primary still %q", what, st.Primary)
-						}
-						h.ep.names[st.Primary] = true
-						if st.PrimaryCert != nil && existed[string(st.PrimaryCert.Raw)] {
-							h.viol("rotation-succeeded-without-certifying", "%s: the new primary %q carries a certificate that was stored before the rotation", what, st.Primary)
-						}
-						h.checkSigning(st.PrimaryCert, st.RootCert, now, want, what)
-						if st.PrimaryCert != nil {
-							if s, ok := new(big.Int).SetString(st.PrimaryCert.Subject.SerialNumber, 10); ok {
-								h.ep.lastSerial = s
-								if st.PrimaryCert.Subject.CommonName == "signingKeyCn" {
-									usedSerials = append(usedSerials, s)
-								}
-							}
-						}
-					} else {
-						// rotation on an authority that is not in a known epoch (after a partial wipeout): profile only
-						h.checkSigning(st.PrimaryCert, st.RootCert, now, nil, what)
-					}
-				}
-			default:
-				wca, wkeys := true, true
-				kind = "wipeout"
-				switch r.IntN(3) {
-				case 0:
-					wkeys, kind = false, "wipeout ca"
-				case 1:
-					wca, kind = false, "wipeout keys"
-				}
-				known := []string{}
-				for n := range h.ep.names {
-					known = append(known, n)
-				}
-				if pst := a.Observe(); pst.Err == "" {
-					known = append(known, pst.Root, pst.Primary)
-				}
-				if llKM {
-					a.LongLivedKM = true // this command is run by the long-lived manager value
-				}
-				if viaCLI {
-					args := []string{"wipeout"}
-					if !wkeys {
-						args = append(args, "ca")
-					} else if !wca {
-						args = append(args, "keys")
-					}
-					err = a.CLI(append(args, flags(opts)...)...)
-				} else {
-					err = a.Wipeout(f, opts, wca, wkeys)
-				}
-				if llKM {
-					a.LongLivedKM = false
-					c.Count("wipeouts-run-by-a-long-lived-key-manager-value", 1)
-				}
-				c.Eval(1)
-				if err == nil {
-					st := a.Observe()
-					what := fmt.Sprintf("after %s at step %d", kind, step)
-					for _, n := range known {
-						if n == "" {
-							continue
-						}
-						if wkeys && canSign(st, n) {
-							h.viol("key-usable-after-wipeout", "%s: key %q can still sign", what, n)
-						}
-						if wca {
-							if _, cerr := st.CA.Certificate(context.Background(), n); cerr == nil {
-								h.viol("certificate-resolves-after-wipeout", "%s: certificate of %q still resolves", what, n)
-							}
-						}
-					}
-					if wca && (st.Primary != "" || st.Root != "") {
-						h.viol("authority-still-names-keys-after-wipeout", "%s: root=%q primary=%q", what, st.Root, st.Primary)
-					}
-					if wca && len(certObjects(a)) != 0 {
-						h.viol("certificate-objects-left-after-wipeout", "%s: %d objects", what, len(certObjects(a)))
-					}
-					h.ep = epoch{}
-				}
-			}
-			cmdCount++
-			outcome := "ok"
-			if err != nil {
-				outcome = "refused"
-				a.DropLongLived() // a careful service discards its authority value after a failed command (C10 owns the other kind)
-			}
-			if longCA {
-				c.Count("commands-run-by-a-long-lived-authority-value", 1)
-			}
-			cmds = append(cmds, fmt.Sprintf("%s overwrite=%v keep_going=%v now=%s -> %v", kind, overwrite, keepGoing, now.Format("2006-01-02"), err))
-			h.cmds = cmds
-			// every command: certificates present before and not allowed to be overwritten are unchanged
-			if !overwrite && !strings.HasPrefix(kind, "wipeout") {
-				after := certObjects(a)
-				for n, b := range before {
-					if nb, ok := after[n]; !ok || !bytes.Equal(nb, b) {
-						h.viol("certificate-object-changed-without-overwrite", "after %s at step %d: object %s %s", kind, step, n, map[bool]string{true: "changed", false: "disappeared"}[ok])
-					}
-				}
-				h.c.Count("certificate-objects-compared-for-no-clobber", len(before))
-			}
-			// every command inside an epoch: only the primary and the root can sign
-			if h.ep.active {
-				st := a.Observe()
-				var names []string
-				for n := range h.ep.names {
-					names = append(names, n)
-				}
-				sort.Strings(names)
-				for _, n := range names {
-					if n != st.Primary && n != st.Root && canSign(st, n) {
-						h.viol("non-primary-key-can-sign", "after %s at step %d: key %q (not the primary %q) can still sign", kind, step, n, st.Primary)
-					}
-				}
-				if st.Primary != "" && err == nil && !canSign(st, st.Primary) {
-					h.viol("primary-cannot-sign", "after %s at step %d: primary %q cannot sign", kind, step, st.Primary)
-				}
-				h.ep.n++
-			}
-			c.Cell("%s|cli=%v|%s|overwrite=%v|%s|epoch-pos=%d", a.Name(), viaCLI, kind, overwrite, outcome, min(h.ep.n, 5))
-			if viaCLI {
-				c.Count("commands-run-through-the-command-line", 1)
-			}
+			h.step(step)
+		}
+		cmdCount += h.ncmd
+		if os.Getenv("VERIF_C12_TRACE") != "" {
+			c.Note("trace %s :: %s :: %x", h.gname, strings.Join(h.cmds, " ; "), r.Uint64())
 		}
 		if hi < 5 {
-			c.Sample(map[string]any{"history": h.gname, "commands": cmds})
+			c.Sample(map[string]any{"history": h.gname, "commands": h.cmds})
 		}
 		c.End(hi)
 		os.RemoveAll(dir)
 	}
+	cmdCount += runExtra(c, nh)
 	c.Count("commands-run", cmdCount)
 	c.Floor("commands-run", cmdCount > 0)
 }
